@@ -23,7 +23,13 @@ ASSUMPTIONS_COMMON = [
     'operator new never fails and never reuses an address inside one execution; futex/clock/usleep/yield are engine stubs (DESIGN.md 3.4/3.5)',
     'trusted: clang/opt, /verif/engine (IR parser, symbolic executor, encoder), z3 5.1',
 ]
-ASSUMPTIONS = {}
+ASSUMPTIONS = {
+ 'C05': ['harness-side models (harness/anyflow/libmodel.cpp) stand for the out-of-line libstdc++/abseil functions that have no IR: std::_Hash_bytes (FNV-style), _Prime_rehash_policy::_M_need_rehash (integer only, max_load_factor 1.0), absl raw_hash_set kEmptyGroup / ShouldInsertBackwards / find_first_non_full / ConvertDeletedToEmptyAndFullToDeleted; they are used while the graph is BUILT (set-up, concrete), not in the run protocol under test',
+         'translation-unit static constructors are executed (@llvm.global_ctors order) before vf_init; __libc_single_threaded = 0',
+         'BABYLON_LOG statements are skipped (root logger min_severity above every severity); ClosureContext::log_unfinished_data (diagnostics only, no shared writes) is not executed',
+         'concurrent unit scenarios: the harness GraphExecutor records a vertex invocation and parks the GraphVertexClosure without running it; the harness ClosureContext has empty wait/notify hooks (the counting that decides when they fire is the real ClosureContext code)',
+         'compiled with -D_GLIBCXX_ASSERTIONS (libstdc++ container checks become failure sites of the check)'],
+}
 
 # ----------------------------------------------------------------------------------------------- C01 / C02: bounded queue
 Q = 'queue/q.cpp'
@@ -266,9 +272,19 @@ AFX = ['babylon/anyflow/builder.cpp', 'babylon/anyflow/graph.cpp', 'babylon/anyf
        'babylon/reusable/memory_resource.cpp', 'babylon/reusable/page_allocator.cpp', 'babylon/concurrent/counter.cpp', 'babylon/new.cpp']
 def af(name, src, defs=(), **kw):
     kw.setdefault('models', ['sc']); kw.setdefault('bound', 8)
-    o = dict(ctors='1'); o.update(kw.pop('opts', {}))
+    o = dict(ctors='1', skipfn='log_unfinished_data'); o.update(kw.pop('opts', {}))
     S(name, 'anyflow/' + src, {'assert': 'C05'}, extra=AFX, xsrc=['anyflow/libmodel.cpp'], cflags=['-D_GLIBCXX_ASSERTIONS'], defs=list(defs), opts=o, **kw)
 af('af_chain_inplace', 'af.cpp')
+af('af_seq_diamond_cond_reset', 'af_seq.cpp', bound=16)
+def afd(name, cond=1, unless=0, two=0, inject=1, **kw):
+    af('af_dep_' + name, 'af_dep.cpp', defs=['VF_COND=%d' % cond, 'VF_UNLESS=%d' % unless, 'VF_TWO_DEPS=%d' % two, 'VF_INJECT_A=%d' % inject], **kw)
+afd('on_true', cond=1)
+afd('on_false', cond=0, inject=0)
+afd('unless_true', cond=1, unless=1, inject=0)
+afd('on_false_target_arrives', cond=0)
+afd('on_true_two_deps', cond=1, two=1)
+afd('on_false_two_deps', cond=0, two=1)
+afd('unless_false_two_deps', cond=0, unless=1, two=1, tiers=TH)
 
 # ----------------------------------------------------------------------------------------------- manifest texts
 LEVEL_TEXT = {
@@ -276,6 +292,7 @@ LEVEL_TEXT = {
  'C02': 'Same queue scenarios with balanced push/pop counts; STUCK query: can any thread sleep in futex_wait with no later wake (lost wake-up/deadlock) - decided for every interleaving and store-buffer/reordering behaviour of the sc/tso/arm models; spurious wake-ups not relied on. The timed exclusive pop and spin-wait liveness are outside the claim (stated).',
  'C03': 'Real ConcurrentFixedSwissTable (SSE group loads scalarised) with a harness hasher: two emplaces of one key (one winner, same element) and emplace vs find reading the mapped value (found element fully constructed) under sc/arm. Growing set, full-table failure and growth races are outside the current scenarios (stated).',
  'C04': 'Real ConcurrentVector<E,0> (block size 1-2) grown by 2 threads: same index => same address, constructed value visible, ctor/dtor balance after destruction, snapshot reader vs grower, gc() vs grower with symbolic clock; RetireList driven directly with a symbolic clock (1024 s windows at 0 and across the 16-bit timestamp wrap): nothing freed < 64 s after retirement.',
+ 'C05': 'Real anyflow sources (builder, graph, vertex, data, dependency, closure, executor .cpp + headers) with the graph built by the real GraphBuilder during set-up. (a) Sequential whole-pipeline scenarios on the inplace executor: a chain, and a fan-out/fan-in graph with on/unless conditional dependencies, an essential dependency, an unneeded vertex, symbolic inputs / condition / requested-target set, run twice with reset() in between; oracle = a reference demand-driven evaluation (target values, which vertices ran, once, after their dependencies, closure finished rc 0). (b) Concurrent unit scenarios of the dependency counter protocol: graph->run() (activation) on one thread racing with the external publication of the condition and of the target data on two other threads through the real emit()/release() path, for on/unless, condition true/false, one or two dependencies on the same data; the harness executor only records vertex invocations; oracle = exactly one invocation of the dependent vertex, after the condition was evaluated and (if it holds) the target was ready, producers activated at most once / never when not needed. Thread-pool executor, channels, mutable dependencies and >3 threads are outside the scenarios (stated).',
  'C06': 'Sequential mode on the real memory_resource.cpp: concrete prefix up to a page-array boundary, then 2 symbolic (size from an 8-entry boundary table, alignment 1..512) requests with optional destructor registration; oracle: aligned, owned, disjoint, canaries intact, release() returns each page / oversize block once with its size+alignment, destructors once in reverse order, accounting zero, reusable. Shared/swiss variants outside.',
  'C08': 'Real FutureContext<two-word value, VS> / CountDownLatch: set_value vs on_finish (before/after/concurrent) vs get / wait_for(symbolic timeout incl. negative and the 2^16 largest values, symbolic monotone ns clock < 2^16); callbacks once with the value, get returns it, wait_for true => ready, false => time elapsed; STUCK query for get.',
  'C09': 'Real Epoch (x86-64 tick): reader regions (accessor, nested, moved between threads, second slot, released/unlocked accessor) vs unlink+tick+low_water_mark; a reader that still sees the old cell never observes it reclaimed; released/unlocked accessors do not hold the mark back. sc/tso/arm.',
@@ -292,7 +309,7 @@ LEVEL_TEXT = {
  'C19': 'Sequential thread generations (each generation = a new logical thread after the previous one exited and its thread_local destructors ran; natively replayed on real std::threads): adder/summer exact across thread exit and thread-id reuse, maxer/miner extreme of the period for arbitrary 64-bit inputs, local() stable, for_each vs for_each_alive, a new counter recycling a destroyed one starts from zero. Concurrent counting-vs-reading outside.',
  'C20': 'Sequential mode: real LogStreamBuffer + LogEntry::append_to_iovec for every length <= 40 (page 16): scatter list == bytes written, every page once; real AsyncFileAppender write() x3 with symbolic entry lengths 0..2, stop marker, real keep_writing(): file == concatenation, pages returned. Concurrent appender scenarios thorough-tier.',
 }
-LEVEL_NOTE = {}
+LEVEL_NOTE = {'C05': 'C05 additionally trusts the harness models of a few out-of-line libstdc++/abseil container functions (listed in the evidence assumptions).'}
 TECH_EXTRA = {}
 NOT_APPLICABLE = {}
 
